@@ -107,6 +107,18 @@ func idRun(cc string, raw []int, kind string) (ev idEvent) {
 			break
 		}
 	}
+	// Greece is written EL for tax purposes and GR otherwise: either prefix on the code, under either country code,
+	// is removed in one pass
+	if cc == "EL" && ev.Ok && ev.AltOk == ev.Ok && !strings.HasPrefix(rawText, "EL") && !strings.HasPrefix(rawText, "GR") {
+		for _, cp := range [][2]string{{"GR", "EL"}, {"GR", "GR"}, {"EL", "GR"}, {"EL", "EL"}} {
+			pi := &tax.Identity{Country: l10n.TaxCountryCode(cp[0]), Code: cbc.Code(cp[1] + string(fromCps(ev.Norm)))}
+			pi.Normalize()
+			if string(pi.Code) != string(fromCps(ev.Norm)) || pi.Validate() != nil {
+				ev.AltOk, ev.AltWhich = false, cp[0]+" with prefix "+cp[1]
+				break
+			}
+		}
+	}
 	// the party inside documents of other regimes: the host's normalisers must leave a foreign identity alone
 	ev.Host, ev.HostNorm = cc, ev.Norm
 	for _, host := range idHosts {
